@@ -8,6 +8,7 @@ from . import names as N
 
 LADDER = [0, 1, 2, 3, 4, 5, 8, 12]
 WORDS = ["x", "dm", "y_1", "beta", "CKM", "on", "off", "alpha", "-x", "+y", "q2", "FF", "w'"]
+END_LABELS = ["B0_SigEnd", "dmEndpoint", "TagEnd", "xEnd2", "EndOfRun", "Endcap", "Enddecays", "End_1", "theEnd"]
 EXT_LABELS = ["VSS1", "SLL0", "PHSP3", "HELAMP2", "ISGW22", "PHSP_x", "SVS9", "HQET2a", "VSS_BMIX2", "PHSP0", "SLN_1", "TAUOLA5"]
 FLOATLIKE = ["inf", "nan", "-Infinity", "+nan", "NaN", "Inf", "-inf", "infinity", "e5", "E-3"]   # words, not numeric literals of the language
 
@@ -40,6 +41,11 @@ class Gen:
             else repr(round(r.random(), r.randint(1, 8)))
 
     def label(self, odd=None):
+        if odd is None and self.rng.random() < 0.05:
+            # names that contain the word End (the statement that closes a file) without being it
+            w = self.rng.choice(END_LABELS)
+            if L.label_ok(w, self.allmodels):
+                return w
         odd = self.rng.random() < 0.15 if odd is None else odd
         return L.gen_label(self.rng, self.allmodels, odd=odd)
 
